@@ -394,6 +394,7 @@ class Eng:
         if not ss: return rv
         s, rest = ss[0], ss[1:]
         if isinstance(s, ast.Continue): return rv
+        if isinstance(s, ast.Pass): return self.region_body(rest, rv)
         if isinstance(s, ast.If):
             c = self.truth(s.test)
             return 'if %s then (%s) else (%s)' % (c, self.region_body(s.body + rest, rv), self.region_body(s.orelse + rest, rv))
@@ -505,3 +506,165 @@ def generate():
 if __name__ == '__main__':
     import sys
     sys.stdout.write(generate())
+
+
+# ====================================================================== format_match of the ten inspectors
+class Fm:
+    """expressions and statements of the format_match properties (and GPT._check_for_fat), in the `res` monad:
+    self.region(..) raises KeyError, struct.unpack raises struct.error, bytes indexing raises IndexError."""
+    def __init__(self, cls, consts):
+        self.cls = cls; self.consts = consts; self.env = {}; self.n = 0
+    def src(self, e): return ast.unparse(e)
+    def fresh(self):
+        self.n += 1
+        return 't%d__' % self.n
+    def lit(self, b): return '(%s%%N : bytes)' % lit(b)
+
+    def mx(self, e):
+        """-> (binds [(var, coq res expr)], coq pure expr, type)"""
+        s = self.src(e)
+        if isinstance(e, ast.Constant):
+            v = e.value
+            if v is True: return [], 'true', 'bool'
+            if v is False: return [], 'false', 'bool'
+            if isinstance(v, int): return [], '%d' % v, 'N'
+            if isinstance(v, (bytes, str)): return [], self.lit(v if isinstance(v, bytes) else v.encode('latin-1')), 'bytes'
+            raise Unsupported('constant ' + s)
+        if isinstance(e, ast.Name):
+            if e.id not in self.env: raise Unsupported('name ' + e.id)
+            return [], e.id, self.env[e.id]
+        if isinstance(e, ast.Attribute) and isinstance(e.value, ast.Name) and e.value.id == 'self':
+            if e.attr == 'complete': return [], '(gen_inspector_complete self)', 'bool'
+            if e.attr == 'vmdktype' and self.cls == 'VMDKInspector': return [], '(v_vmdktype (i_ext self))', 'bytes'
+            if e.attr in self.consts: return [], '%d' % self.consts[e.attr], 'N'
+            raise Unsupported('attribute ' + s)
+        if isinstance(e, ast.Call):
+            fn = self.src(e.func)
+            if fn == 'self.region' and len(e.args) == 1 and isinstance(e.args[0], ast.Constant) and isinstance(e.args[0].value, str):
+                t = self.fresh()
+                return [(t, '(gen_region self R_%s)' % e.args[0].value)], t, 'region'
+            if fn == 'self.has_region' and len(e.args) == 1 and isinstance(e.args[0], ast.Constant):
+                return [], '(gen_has_region self R_%s)' % e.args[0].value, 'bool'
+            if fn == 'self._check_for_fat' and not e.args and self.cls == 'GPTInspector':
+                t = self.fresh()
+                return [(t, '(gen_gpt_check_for_fat self)')], t, 'bool'
+            if fn == 'self.qemu_header_info.get' and len(e.args) == 1 and self.src(e.args[0]) == "'magic'" and self.cls == 'QcowInspector':
+                return [], '(option_map q_magic (i_ext self))', 'optbytes'
+            if isinstance(e.func, ast.Attribute) and e.func.attr == 'startswith' and len(e.args) == 1:
+                b1, a, ta = self.mx(e.func.value); b2, p, tp = self.mx(e.args[0])
+                if ta != 'bytes' or tp != 'bytes': raise Unsupported('startswith types')
+                return b1 + b2, '(prefixb %s %s)' % (p, a), 'bool'
+            raise Unsupported('call ' + s)
+        if isinstance(e, ast.Attribute):
+            b, a, ta = self.mx(e.value)
+            if ta == 'region' and e.attr == 'data': return b, '(r_data %s)' % a, 'bytes'
+            if ta == 'region' and e.attr == 'complete': return b, '(py_region_complete %s)' % a, 'bool'
+            raise Unsupported('attribute ' + s)
+        if isinstance(e, ast.Subscript):
+            b, a, ta = self.mx(e.value)
+            if ta != 'bytes': raise Unsupported('subscript of ' + ta)
+            if isinstance(e.slice, ast.Slice):
+                if e.slice.step is not None: raise Unsupported('step')
+                lo = self.const_int(e.slice.lower) if e.slice.lower is not None else None
+                hi = self.const_int(e.slice.upper) if e.slice.upper is not None else None
+                if lo is None and hi is not None: return b, '(ntake %d %s)' % (hi, a), 'bytes'
+                if lo is not None and hi is not None: return b, '(nsub %d %d %s)' % (lo, hi, a), 'bytes'
+                raise Unsupported('slice ' + s)
+            i = self.const_int(e.slice)
+            t = self.fresh()
+            return b + [(t, '(bidx %s %d)' % (a, i))], t, 'N'
+        if isinstance(e, ast.UnaryOp) and isinstance(e.op, ast.Not):
+            b, a, ta = self.mx(e.operand)
+            if ta != 'bool': raise Unsupported('not ' + ta)
+            return b, '(negb %s)' % a, 'bool'
+        if isinstance(e, ast.BoolOp) and isinstance(e.op, ast.And):
+            # Python's `and` is lazy; only pure operands are translated (no binds after the first operand)
+            parts = [self.mx(v) for v in e.values]
+            if any(p[0] for p in parts[1:]) or any(p[2] != 'bool' for p in parts): raise Unsupported('and with effects: ' + s)
+            return parts[0][0], '(' + ' && '.join(p[1] for p in parts) + ')', 'bool'
+        if isinstance(e, ast.Compare) and len(e.ops) == 1:
+            op = e.ops[0]
+            b1, a, ta = self.mx(e.left); b2, c, tc = self.mx(e.comparators[0]) if not isinstance(e.comparators[0], ast.Tuple) else ([], None, 'tuple')
+            if isinstance(op, (ast.Eq, ast.NotEq)):
+                if ta == tc == 'bytes': r = '(beq %s %s)' % (a, c)
+                elif ta == tc == 'N': r = '(%s =? %s)' % (a, c)
+                elif ta == 'optbytes' and tc == 'bytes': r = '(match %s with Some m__ => beq m__ %s | None => false end)' % (a, c)
+                else: raise Unsupported('== on %s, %s' % (ta, tc))
+                return b1 + b2, (r if isinstance(op, ast.Eq) else '(negb %s)' % r), 'bool'
+            if isinstance(op, ast.In) and tc == 'tuple' and ta == 'bytes':
+                els = e.comparators[0].elts
+                if not all(isinstance(x, ast.Constant) and isinstance(x.value, bytes) for x in els): raise Unsupported('in tuple')
+                return b1, '(mem_str %s [%s])' % (a, '; '.join(self.lit(x.value) for x in els)), 'bool'
+        raise Unsupported('expression ' + s)
+
+    def const_int(self, e):
+        if isinstance(e, ast.Constant) and isinstance(e.value, int) and not isinstance(e.value, bool): return e.value
+        raise Unsupported('non-literal index ' + self.src(e))
+
+    def wrap(self, binds, body):
+        for v, c in reversed(binds): body = 'do %s <- %s;\n%s' % (v, c, body)
+        return body
+
+    def block(self, ss):
+        if not ss: raise Unsupported('falls off the end')
+        s, rest = ss[0], ss[1:]
+        if isinstance(s, ast.Expr) and isinstance(s.value, ast.Constant) and isinstance(s.value.value, str): return self.block(rest)
+        if isinstance(s, ast.Return):
+            b, a, ta = self.mx(s.value)
+            if ta != 'bool': raise Unsupported('returns ' + ta)
+            return self.wrap(b, 'Ok %s' % a)
+        if isinstance(s, ast.If):
+            b, c, tc = self.mx(s.test)
+            if tc != 'bool': raise Unsupported('if on ' + tc)
+            saved = dict(self.env)
+            th = self.block(s.body + rest); self.env = dict(saved)
+            el = self.block(s.orelse + rest); self.env = dict(saved)
+            return self.wrap(b, 'if %s then (\n%s) else (\n%s)' % (c, th, el))
+        if isinstance(s, ast.Assign) and len(s.targets) == 1:
+            tg = s.targets[0]
+            # x, = struct.unpack(fmt, data)
+            if isinstance(tg, ast.Tuple) and len(tg.elts) == 1 and isinstance(tg.elts[0], ast.Name) and isinstance(s.value, ast.Call) \
+                    and self.src(s.value.func) == 'struct.unpack' and len(s.value.args) == 2 and isinstance(s.value.args[0], ast.Constant):
+                import gen_insp
+                big, size, fields = gen_insp.parse_struct(s.value.args[0].value)
+                if len(fields) != 1: raise Unsupported('unpack arity')
+                sf = '(mkSfmt %s %d [(%d, %d)])' % ('true' if big else 'false', size, fields[0][0], fields[0][1])
+                b, a, ta = self.mx(s.value.args[1])
+                if ta != 'bytes': raise Unsupported('unpack of ' + ta)
+                u = self.fresh()
+                self.env[tg.elts[0].id] = 'N'
+                return self.wrap(b + [(u, '(unpack %s %s)' % (sf, a))], 'let %s := sint %s 0 %s in\n%s' % (tg.elts[0].id, sf, u, self.block(rest)))
+            if isinstance(tg, ast.Name):
+                b, a, ta = self.mx(s.value)
+                self.env[tg.id] = ta
+                return self.wrap(b, 'let %s := %s in\n%s' % (tg.id, a, self.block(rest)))
+        raise Unsupported('statement ' + self.src(s).split('\n')[0])
+
+FORMAT_CLASSES = [('raw', 'RawFileInspector', 'unit'), ('qcow2', 'QcowInspector', 'qx'), ('qed', 'QEDInspector', 'unit'), ('vhd', 'VHDInspector', 'unit'),
+                  ('vhdx', 'VHDXInspector', 'unit'), ('vmdk', 'VMDKInspector', 'vx'), ('vdi', 'VDIInspector', 'unit'), ('iso', 'ISOInspector', 'unit'),
+                  ('gpt', 'GPTInspector', 'unit'), ('luks', 'LUKSInspector', 'unit')]
+
+def generate_formats():
+    import gen_insp, failclosed
+    failclosed.check_all(gen_insp.FAILCLOSED['generate'])
+    m = repo_import('oslo_utils.imageutils.format_inspector')
+    tree = repo_ast(SRC)
+    out = [HEADER % (SRC, 'tools/gen/gen_insp_engine.py (format_match)'),
+           'Require Import OV.Base.Bytes OV.Base.Py OV.Base.Insp_Struct OV.Gen.Insp_Consts OV.Model.Insp_Engine OV.Model.Insp_PyPrims OV.Gen.Insp_EngineCode.\n'
+           'Require Import OV.Model.Insp_Qcow2 OV.Model.Insp_Vmdk.\nOpen Scope N_scope.\n']
+    try:
+        for name, cls, xt in FORMAT_CLASSES:
+            consts = {k: v for k, v in vars(getattr(m, cls)).items() if k.isupper() and isinstance(v, int)}
+            if cls == 'GPTInspector':
+                f = _fn(tree, cls, '_check_for_fat')
+                t = Fm(cls, consts)
+                out.append('Definition gen_gpt_check_for_fat (self : ist unit) : res bool :=\n%s.\n' % t.block(f.body))
+            f = _fn(tree, cls, 'format_match')
+            t = Fm(cls, consts)
+            out.append('Definition gen_%s_format_match (self : ist %s) : res bool :=\n%s.\n' % (name, xt, t.block(f.body)))
+    except Unsupported as e:
+        raise GenError('format_match translation: ' + str(e))
+    return '\n'.join(out)
+
+if __name__ == '__main__' and len(__import__('sys').argv) > 1:
+    __import__('sys').stdout.write(generate_formats())
